@@ -381,6 +381,237 @@ def word_shape(ctx, report, folder):
     report.check(ok, "R-AUTOMATON", pc, "a one-byte code is appended in place, a two-byte code starts on a word boundary",
                  {"folded": rets, "wrong": bad[:3]}, "6")
     tc = ctx.index.get_function(SCC, "SCCWriter._text_to_code")
+    encode_fold(ctx, report, folder, tc, c2c, s2c)
+
+
+def encode_fold(ctx, report, folder, tc, c2c, s2c):
+    """SCCWriter._text_to_code folded on every encodable character in both alignment states (the
+    character first on its row, and after one one-byte character), on one- and two-row captions: the
+    code consists of whole 4-hex-digit words, every row starts with its doubled address word, and
+    decoding the words with the reader's own tables gives the text back."""
+    from ..core.constfold import Stub
+    wcls = ctx.index.get_class(SCC, "SCCWriter")
+    chars = folder.value("pycaption.scc.constants", "CHARACTERS")
+    special = folder.value("pycaption.scc.constants", "SPECIAL_CHARS")
+    extended = folder.value("pycaption.scc.constants", "EXTENDED_CHARS")
+    hi = folder.value("pycaption.scc.constants", "PAC_HIGH_BYTE_BY_ROW")
+    lo = folder.value("pycaption.scc.constants", "PAC_LOW_BYTE_BY_ROW_RESTRICTED")
+    pac_row = {f"{hi[r]}{lo[r]}": r for r in range(1, 16)}
+    one = next(ch for ch, cd in sorted(c2c.items()) if len(cd) == 2 and ch.isalpha())
+    alphabet = sorted(set(c2c) | set(s2c))
+    alphabet = [ch for ch in alphabet if ch and not ch.isspace()]
+
+    def decode(code):
+        if re.fullmatch(r"([0-9a-f]{4} )*", code) is None:
+            return None, "not a sequence of whole 4-hex-digit words"
+        rows, cur = [], None
+        words = code.split()
+        i = 0
+        while i < len(words):
+            w = words[i]
+            if w in pac_row:
+                if i + 1 >= len(words) or words[i + 1] != w:
+                    return None, f"address word {w} is not doubled"
+                cur = [pac_row[w], ""]
+                rows.append(cur)
+                i += 2
+                continue
+            if cur is None:
+                return None, f"word {w} before any address"
+            if w in special:
+                cur[1] += special[w]
+            elif w in extended:
+                cur[1] += extended[w]
+            else:
+                for byte in (w[:2], w[2:]):
+                    if byte not in chars:
+                        return None, f"byte {byte} of word {w} is not a character code"
+                    cur[1] += chars[byte]
+            i += 1
+        return rows, None
+    bad, n = [], 0
+    for ch in alphabet:
+        for lines in ([ch], [one + ch], [ch + one, one + ch + ch]):
+            n += 1
+            text = "\n".join(lines)
+            cap = Stub("caption", {}, {"get_text_nodes": lambda text=text: [text]})
+            try:
+                code = folder.call_function(tc, [cap], self_value=Stub("writer", {}, cls=wcls))
+            except AnalysisError as e:
+                raise AnalysisError(f"_text_to_code cannot be folded on {text!r}: {e}")
+            rows, why = decode(code)
+            if why is None:
+                want_rows = list(range(16 - len(lines), 16))
+                if [r for r, _ in rows] != want_rows:
+                    why = f"rows addressed {[r for r, _ in rows]} instead of {want_rows}"
+                elif [t for _, t in rows] != lines:
+                    why = f"decodes to {[t for _, t in rows]}"
+            if why:
+                bad.append({"text": lines, "code": code[:60], "problem": why})
+    ext_written_bare = sorted(ch for ch in alphabet if ch in s2c and s2c[ch] in extended)
+    if ext_written_bare:
+        report.info("R-ENCODE-FOLD", tc, "outside C17's scope (basic character set only): extended characters are written "
+                    "without the stand-in character that a CEA-608 decoder - and SCCReader - erases before them",
+                    {"extended_characters": len(ext_written_bare),
+                     "observed_on_the_real_code": "'xAÁBy' is written as f8c1 9220 c279 and read back as 'xÁBy'"}, "6")
+    report.check(not bad, "R-ENCODE-FOLD", tc,
+                 "every encodable character, in both alignment states, is written as whole words on the right rows and decodes "
+                 "back with the reader's tables", {"texts_folded": n, "characters": len(alphabet), "offending": bad[:3]}, "6")
+
+
+def preroll(ctx, report, folder):
+    fn = ctx.index.get_function(SCC, "SCCWriter.write")
+    report.covered(fn)
+    # literal words written around each payload in PASS 3
+    # the statement list (in write() or a helper it calls) that emits the line starting with the
+    # caption's start timecode: its unconditional statements carry the literal command words
+    def blocks(body):
+        yield body
+        for st in body:
+            for name in ("body", "orelse", "finalbody"):
+                b_ = getattr(st, name, None)
+                if isinstance(b_, list) and b_ and isinstance(b_[0], ast.stmt) \
+                        and not isinstance(st, (ast.FunctionDef, ast.ClassDef)):
+                    yield from blocks(b_)
+
+    def simple(st):
+        return isinstance(st, (ast.Assign, ast.AugAssign, ast.Return, ast.Expr))
+    cands = []
+    for f2 in closure(ctx.index, fn):
+        for blk in blocks(f2.node.body):
+            if any(simple(st) and "_format_timestamp" in src(st) for st in blk):
+                cands.append((f2, blk))
+    if not cands or len({f2.key for f2, _ in cands}) != 1:
+        raise AnalysisError(f"SCCWriter.write: emission of the timecode line not recognised ({len(cands)} candidates)")
+    f2, blk = cands[0]
+    report.covered(f2)
+    per_caption = []
+    for st in blk:
+        if simple(st):
+            per_caption += [c.value for c in ast.walk(st) if isinstance(c, ast.Constant) and isinstance(c.value, str)]
+    lit_words = sum(len([w for w in s.split() if re.fullmatch(r"[0-9a-f]{4}", w)]) for s in per_caption)
+    assigns = {}
+    for n in walk_no_nested(fn.node):
+        if isinstance(n, ast.Assign) and len(n.targets) == 1 and isinstance(n.targets[0], ast.Name):
+            assigns.setdefault(n.targets[0].id, []).append(n.value)
+    cs = assigns.get("code_start", [])
+    if len(cs) != 1:
+        raise AnalysisError("SCCWriter.write: pre-rolled start (code_start) not found")
+    resolved = src(resolve_local(fn, cs[0], index=ctx.index))
+    m = re.fullmatch(r"start - \(len\(code\) / 5 \+ (\d+)\) \* MICROSECONDS_PER_CODEWORD", resolved)
+    if not m:
+        raise AnalysisError(f"SCCWriter.write: pre-roll expression not recognised: {resolved}")
+    report.check(int(m.group(1)) == lit_words, "R-TABLE-SIBLING", (fn, cs[0]),
+                 "pre-roll counts the payload words plus the literal command words written around them",
+                 {"constant": int(m.group(1)), "literal_command_words_per_caption": lit_words,
+                  "literals": per_caption}, "4")
+    report.ok("R-AFFINE", fn, "transmission starts one frame per code word before the caption's start",
+              {"code_start": resolved}, "4")
+    tests = [n for n in walk_no_nested(fn.node) if isinstance(n, ast.If) and "MICROSECONDS_PER_CODEWORD" in src(n.test)]
+    if len(tests) != 1:
+        raise AnalysisError("SCCWriter.write: clear-screen test not found")
+    t = tests[0].test
+    ok = isinstance(t, ast.Compare) and isinstance(t.ops[0], ast.GtE) and src(t.comparators[0]) == "code_start" \
+        and re.fullmatch(r"previous_end \+ (\d+) \* MICROSECONDS_PER_CODEWORD", src(t.left)) is not None
+    report.check(ok, "R-FIELD-ROUTING", (fn, tests[0]),
+                 "the previous clear-screen is dropped when it would fall after the PRE-ROLLED start of the next caption",
+                 {"test": src(t), "required": "previous_end + k * frame >= code_start"}, "4")
+    # the emitted line uses the pre-rolled start
+    st = [n for n in walk_no_nested(fn.node) if isinstance(n, ast.Assign) and isinstance(n.targets[0], ast.Subscript)
+          and src(n.targets[0]) == "codes[index]"]
+    ok = len(st) == 1 and src(st[0].value) == "(code, code_start, end)"
+    report.check(ok, "R-FIELD-ROUTING", fn, "each caption is transmitted from its pre-rolled start", [short(s) for s in st], "4")
+    if len(st) == 1:
+        from ..core.astutil import enclosing_conjuncts
+        dom = enclosing_conjuncts(fn, st[0]) or []
+        first_excluded = any(d.replace(" ", "") in ("not(index==0)", "index>0", "index!=0", "index>=1") for d in dom)
+        report.check(first_excluded, "R-GUARD", (fn, st[0]),
+                     "the first caption is not pre-rolled (its start is never moved before the beginning of the file)",
+                     {"store_runs_under": dom,
+                      "why": None if first_excluded else "start - load time of the first caption can be negative: the "
+                                                         "timecode formatter then prints a malformed (negative) stamp"}, "4")
+
+
+def header(ctx, report, folder):
+    wr = ctx.index.get_function(SCC, "SCCWriter.write")
+    det = ctx.index.get_function(SCC, "SCCReader.detect")
+    report.covered(det)
+    hv = folder.value(CONST, "HEADER")
+    w_uses = [n for n in walk_no_nested(wr.node) if isinstance(n, ast.Name) and n.id == "HEADER"]
+    d_uses = [n for n in walk_no_nested(det.node) if isinstance(n, ast.Name) and n.id == "HEADER"]
+    first = [n for n in walk_no_nested(wr.node) if isinstance(n, ast.Assign) and src(n.targets[0]) == "output"]
+    ok = bool(w_uses) and bool(d_uses) and first and src(first[0].value).startswith("HEADER +")
+    report.check(ok and hv == "Scenarist_SCC V1.0", "R-TABLE-SIBLING", wr,
+                 "the output starts with the HEADER constant the reader's detect compares with",
+                 {"HEADER": hv, "writer_uses": len(w_uses), "detect_uses": len(d_uses)}, "5")
+
+
+def word_shape(ctx, report, folder):
+    """len(code) % 5 abstract interpretation: 0 = word aligned ("hhhh " consumed), 2 = half word, 4 = full word
+    without its separating space.  Each helper is folded over the three states with the constant folder (pure
+    string functions on a representative string of that length class)."""
+    al = ctx.index.get_function(SCC, "SCCWriter._maybe_align")
+    sp = ctx.index.get_function(SCC, "SCCWriter._maybe_space")
+    for f in (al, sp):
+        report.covered(f)
+    reps = {0: "", 2: "ab", 4: "abcd", 1: "a", 3: "abc"}
+    table = {}
+    for name, f in (("align", al), ("space", sp)):
+        for st, rep in reps.items():
+            try:
+                out = folder.call_function(f, [rep])
+            except AnalysisError as e:
+                raise AnalysisError(f"{f.qualname}: cannot fold: {e}")
+            if not isinstance(out, str) or not out.startswith(rep):
+                raise AnalysisError(f"{f.qualname}: does not extend its argument")
+            table[(name, st)] = (len(out) % 5, out[len(rep):])
+    want_align = {0: (0, ""), 2: (0, "80 "), 4: (4, "")}
+    want_space = {0: (0, ""), 2: (2, ""), 4: (0, " ")}
+    ok_a = all(table[("align", s)] == w for s, w in want_align.items())
+    ok_s = all(table[("space", s)] == w for s, w in want_space.items())
+    report.check(ok_a, "R-AUTOMATON", al, "_maybe_align pads a half word with the filler byte and nothing else",
+                 {str(s): table[("align", s)] for s in (0, 2, 4)}, "6")
+    report.check(ok_s, "R-AUTOMATON", sp, "_maybe_space separates a completed word and nothing else",
+                 {str(s): table[("space", s)] for s in (0, 2, 4)}, "6")
+    if not (ok_a and ok_s):
+        return
+    # _print_character: 2-hex code appended in place, 4-hex code after align; each followed by _maybe_space in
+    # _text_to_code; rows start with two "hhll " PACs and end with _maybe_align
+    pc = ctx.index.get_function(SCC, "SCCWriter._print_character")
+    # folded on (alignment state) x (one-byte character, two-byte character, unknown character)
+    from ..core.constfold import Stub
+    wcls = ctx.index.get_class(SCC, "SCCWriter")
+    c2c = folder.value("pycaption.scc.constants", "CHARACTER_TO_CODE")
+    s2c = folder.value("pycaption.scc.constants", "SPECIAL_OR_EXTENDED_CHAR_TO_CODE")
+    one = next(ch for ch, cd in sorted(c2c.items()) if len(cd) == 2 and ch.isalpha())
+    two = next(ch for ch, cd in sorted(s2c.items()) if len(cd) == 4 and ch not in c2c)
+    unknown = "\u2603"
+    if unknown in c2c or unknown in s2c:
+        raise AnalysisError("_print_character: probe character is encodable")
+    rets, bad = {}, []
+    for prefix in ("", "ab", "abcd "):
+        for label, ch in (("one-byte", one), ("two-byte", two), ("unknown", unknown)):
+            try:
+                out = folder.call_function(pc, [prefix, ch], self_value=Stub("writer", {}, cls=wcls))
+            except AnalysisError as e:
+                raise AnalysisError(f"_print_character cannot be folded: {e}")
+            rets[f"{prefix!r}+{label}"] = out
+            if not isinstance(out, str) or not out.startswith(prefix):
+                bad.append((prefix, label, out))
+                continue
+            added = out[len(prefix):]
+            if label == "one-byte":
+                good = added == c2c[one]
+            else:
+                pad = "80 " if len(prefix) % 5 == 2 else ""
+                good = re.fullmatch(re.escape(pad) + r"[0-9a-f]{4}", added) is not None and \
+                    (label == "unknown" or added.endswith(s2c[two]))
+            if not good:
+                bad.append((prefix, label, out))
+    ok = not bad
+    report.check(ok, "R-AUTOMATON", pc, "a one-byte code is appended in place, a two-byte code starts on a word boundary",
+                 {"folded": rets, "wrong": bad[:3]}, "6")
+    tc = ctx.index.get_function(SCC, "SCCWriter._text_to_code")
     # automaton closure: states reachable at the top of a row
     def step_char(st, nbytes):
         if nbytes == 1:
